@@ -74,7 +74,7 @@ func RaceMain() {
 	if *mode == "B" || *mode == "Q" {
 		w = "d"
 	}
-	im := install(w, raceTree(*mode == "P" || *mode == "Q", *mode == "P" || *mode == "Q"))
+	im := install(w, raceTree(*mode == "P" || *mode == "Q", *mode == "P" || *mode == "Q"), nil)
 	if im == nil {
 		fmt.Println("configuration rejected")
 		os.Exit(3)
